@@ -1,7 +1,7 @@
 (* C04 - a successful state task reaches its declared state and reports change honestly.
    Pinned statements only; the proofs live in CopyProofs/FileProofs/TemplatePacmanProofs/StateProofs. *)
 From Coq Require Import List String Ascii Bool NArith.
-From RashV Require Import Fs Octal OctalProofs StateMods Pacman StateSpec TemplatePacmanProofs StateProofs.
+From RashV Require Import Fs Octal OctalProofs StateMods Pacman StateSpec SeqSpec TemplatePacmanProofs StateProofs.
 Import ListNotations.
 Open Scope N_scope.
 
@@ -26,7 +26,7 @@ Proof. exact fs_declared. Qed.
 
 (* honest change report: ok => nothing at all was done (outside K8); changed => the target differs *)
 Theorem C04_fs_ok_means_unchanged : forall e t s s',
-  run_task e t false s = (ROk false, s') -> known_empty_create t (sw s) = false -> s' = s.
+  run_task e t false s = (ROk false, s') -> known_empty_create e t (sw s) = false -> s' = s.
 Proof. exact fs_ok_means_unchanged. Qed.
 Theorem C04_fs_changed_means_differs : forall e t s s',
   run_task e t false s = (ROk true, s') -> wf_task t ->
@@ -59,11 +59,16 @@ Theorem C04_changed_iff_refuted_K8 :
   let t := TCopy {| cp_input := IContent ""; cp_dest := ["d"%string]; cp_mode := MNone |} in
   let r := run_task env0 t false {| sw := w_empty; slog := [] |} in
   fst r = ROk false /\ sw (snd r) ["d"%string] <> w_empty ["d"%string]
-  /\ known_empty_create t w_empty = true
+  /\ known_empty_create env0 t w_empty = true
   /\ fst (run_task env0 (TCopy {| cp_input := IContent ""; cp_dest := ["d"%string]; cp_mode := MStr "0600" |}) true
             {| sw := w_empty; slog := [] |}) = ROk true
   /\ fst (run_task env0 (TCopy {| cp_input := IContent ""; cp_dest := ["d"%string]; cp_mode := MStr "0644" |}) false
-            {| sw := w_empty; slog := [] |}) = ROk false.
+            {| sw := w_empty; slog := [] |}) = ROk false
+  /\ known_empty_create env0 (TCopy {| cp_input := IContent ""; cp_dest := ["d"%string]; cp_mode := MStr "0600" |}) w_empty = false
+  /\ known_empty_create env0 (TCopy {| cp_input := IContent ""; cp_dest := ["d"%string]; cp_mode := MStr "0644" |}) w_empty = true
+  /\ fst (run_task env0 (TCopy {| cp_input := IContent ""; cp_dest := ["d"%string]; cp_mode := MStr "0600" |}) false
+            {| sw := w_empty; slog := [] |}) = ROk true
+  /\ tmp_like_create env0.
 Proof. exact K8_changed_iff_refuted. Qed.
 Theorem C04_sync_refuted_K19 :
   let d := {| installed := ["a"%string]; explicit := []; sysver := 0; dbver := 0; upstream := 0 |} in
